@@ -6,3 +6,5 @@ open HmcVerif.C07
 #print axioms thinning_is_subsequence
 #print axioms stored_misfit_is_own_rwmh
 #print axioms close_rate
+#print axioms reuse_eq_fresh
+#print axioms session_last_file
